@@ -176,6 +176,9 @@ func runC08(t *testing.T, c *choice.Stream, r *Result, opt RunOpt) {
 				}
 				e.W.SetPlan(v.sizes, v.gaps)
 				e.W.ShortReads = v.short
+				if v.short > 0 {
+					conn.EmptyReads = 60 // ... and empty reads (zero-length segments)
+				}
 				qctx := ctx
 				if b.rs.farDeadline > 0 {
 					// a deadline far beyond the whole exchange must change nothing
